@@ -8,7 +8,7 @@ import random
 import re
 
 from harness.bounded import BoundedContract, chunked
-from props.C14 import ARCHS, base_mnemo, family, known_groups, machine
+from props.C14 import ARCHS, base_mnemo, family, known_groups, machine, split_failures
 
 PROPERTY = {
     "id": "C15",
@@ -218,12 +218,7 @@ class AsmCases(BoundedContract):
     def check(self, case):
         a, k, g = case
         n, fails = run_chunk(a, k)
-        gs = known_groups("C15")
-        if g:
-            mine = [(t, w) for t, w in fails if t in gs[g][1]]
-        else:
-            known = set().union(*(ts for _, ts in gs.values()))
-            mine = [(t, w) for t, w in fails if t not in known]
+        mine = split_failures("C15", fails, g)
         if not mine:
             return (True, "", n > 0)
         seen = {}
